@@ -54,7 +54,7 @@ def explore_pairs(tag: str, jobs: List[dict], tier: str, workers: int, c: Counte
     or bytecode granularity (thorough)."""
     gran = 'line' if tier == 'quick' else 'opcode'
     n = max(1, min(workers, len(jobs)))
-    batches = [(jobs[i::n], gran, 150 if tier == 'quick' else 1200) for i in range(n)]
+    batches = [(jobs[i::n], gran, 260 if tier == 'quick' else 1500) for i in range(n)]
     for reports in pmap(_run_batch, batches, workers):
         for r in reports:
             c.inc('conc_pairs')
